@@ -377,6 +377,7 @@ def run(ctx, model_ok):
     rng = ctx.rng
     grid = streams.INT_GRID_FULL if thorough else streams.INT_GRID_QUICK
     ctx.cov["exhaustive"] = True
+    run_stream(ctx, "corpus", li.corpus_specs(PID, build), model_ok)
     run_stream(ctx, "grid", grid_specs(grid, li.FORMS), model_ok)
     run_stream(ctx, "random", random_specs(rng, 400000 if thorough else 10000), model_ok)
     run_stream(ctx, "random-cmp", random_cmp_specs(rng, 400000 if thorough else 10000), model_ok)
